@@ -253,7 +253,9 @@ class PairCase(Case):
           kerasc.WEIGHT_PROVIDER[0] = None
         lo = layer.call(x)
         for b in range(2):
-          cl += _eq('pwl_calibration_fn==PWLCalibration[%d,u%d]' % (b, u), out.a[b, u], lo.a[b, 0])
+          # with a missing value the symbolic rows are the non-missing inputs; the missing input itself is compared below
+          hyp = P.lift(x.a[b, 0]).ne(args['missing_input_value']) if kw['missing'] else None
+          cl += _eq('pwl_calibration_fn==PWLCalibration[%d,u%d]' % (b, u), out.a[b, u], lo.a[b, 0], None, hyp)
         if kw['missing']:
           xm = tfc.convert_to_tensor([[args['missing_input_value']]], dtype=tfc.float32)
           fm = cp.pwl_calibration_fn(inputs=xm, **args)
